@@ -3,7 +3,7 @@
                                      | ((err CLASS) (expect ..))
    The model never looks at xBYTES: it loads the LAYOUT with Model/XrefMerge.v and computes the
    expectation with Spec/History.v. *)
-From LV Require Import Base.Bytes Base.Sx Model.Obj Model.XrefMerge Spec.History.
+From LV Require Import Base.Bytes Base.Sx Model.Obj Model.DocQ Model.Writer Model.Save Model.XrefMerge Model.Incremental Spec.History.
 
 (* ---- decoding ---- *)
 Definition rawent_of_sx (x : sx) : option rawent :=
@@ -71,7 +71,7 @@ Definition layout_of_sx (x : sx) : option layout :=
   | _ => None
   end.
 
-Definition rev_of_sx (x : sx) : option rev :=
+Definition rev_of_sx (x : sx) : option revision :=
   match x with
   | SL [_; SL (_ :: puts); SL (_ :: dels)] =>
     match omap member_of_sx puts, omap oid_of_sx dels with
@@ -81,7 +81,7 @@ Definition rev_of_sx (x : sx) : option rev :=
   | _ => None
   end.
 
-Definition revs_of_sx (x : sx) : option (list rev) :=
+Definition revs_of_sx (x : sx) : option (list revision) :=
   match x with
   | SL (_ :: rs) => omap rev_of_sx rs
   | _ => None
@@ -93,7 +93,7 @@ Definition xentry_to_sx (e : xentry) : sx :=
   | XFree => SL [sx_id "free"]
   | XUnusable => SL [sx_id "ufree"]
   | XNormal o g => SL [sx_id "n"; sx_N o; sx_N g]
-  | XComp c i => SL [sx_id "c"; sx_N c; sx_N i]
+  | XCompressed c i => SL [sx_id "c"; sx_N c; sx_N i]
   end.
 
 (* trailers are compared up to the order of their keys: insertion sort by key *)
@@ -143,9 +143,193 @@ Definition run_load (lx rx : sx) : sx :=
   | _, _ => sx_id "badcase"
   end.
 
+(* ---------- replaying edits through IncrementalDocument ----------
+     (inc DOC STYLE xJUNK (steps (step OP...)...))
+       -> (inc xBASE (step (ops R...) (objs ..) prefix? xSUFFIX) (reload TRAILER maxid start (objs ..)) ...)
+     (incraw HDR xBYTES LAYOUT (steps ...)) -> (incraw (step ..) (reload ..) ...)
+   What a reload returns is PREDICTED here (the plain-loader round trip of Proofs/IncrementalProofs.v made
+   executable): the objects are the overlay of the previous view and the new objects, the trailer is the one just
+   written minus the keys the reader removes, max_id is the largest object number of the merged table. *)
+Inductive op :=
+| OpSet (id : oid) (o : obj) | OpAdd (o : obj) | OpClone (id : oid) | OpSetKey (id : oid) (k : bytes) (o : obj)
+| OpRes (id : oid) | OpXobj (page : oid) (name : bytes) (x : oid).
+
+Definition op_of_sx (x : sx) : option op :=
+  match x with
+  | SL [t; a] =>
+    if is_id t "add" then option_map OpAdd (obj_of_sx a)
+    else if is_id t "clone" then option_map OpClone (oid_of_sx a)
+    else if is_id t "res" then option_map OpRes (oid_of_sx a)
+    else None
+  | SL [t; a; b] =>
+    if is_id t "set" then match oid_of_sx a, obj_of_sx b with Some i, Some o => Some (OpSet i o) | _, _ => None end
+    else None
+  | SL [t; a; b; c] =>
+    if is_id t "setkey" then
+      match oid_of_sx a, as_bytes b, obj_of_sx c with Some i, Some k, Some o => Some (OpSetKey i k o) | _, _, _ => None end
+    else if is_id t "xobj" then
+      match oid_of_sx a, as_bytes b, oid_of_sx c with Some p, Some n, Some i => Some (OpXobj p n i) | _, _, _ => None end
+    else None
+  | _ => None
+  end.
+
+Definition sx_okerr (b : bool) : sx := if b then sx_id "ok" else sx_id "err".
+
+(* one edit: new state and the harness-visible result; None = outside the model (u32 overflow) *)
+Definition apply_op (s : incdoc) (o : op) : option (incdoc * sx) :=
+  match o with
+  | OpSet id ob => Some (set_object s id ob, sx_id "ok")
+  | OpAdd ob => match add_object s ob with Some (s', id) => Some (s', oid_to_sx id) | None => None end
+  | OpClone id => match opt_clone s id with Some s' => Some (s', sx_id "ok") | None => Some (s, sx_id "err") end
+  | OpSetKey id k ob =>
+    match opt_clone s id with
+    | None => Some (s, sx_id "err")
+    | Some s1 =>
+      match get_object_mut_id (new_objects s1) id with
+      | Some t =>
+        match lookup (new_objects s1) t with
+        | Some (ODict d) => Some (set_new_objects s1 (insert (new_objects s1) t (ODict (dict_set d k ob))), sx_id "ok")
+        | _ => Some (s1, sx_id "err")
+        end
+      | None => Some (s1, sx_id "err")
+      end
+    end
+  | OpRes id =>
+    match get_or_create_resources s id with
+    | (s', Some p) =>
+      match place_get (new_objects s') p with
+      | Some ob => Some (s', SL [sx_id "ok"; obj_to_sx ob])
+      | None => Some (s', sx_id "err")
+      end
+    | (s', None) => Some (s', sx_id "err")
+    end
+  | OpXobj p n i => let r := add_xobject s p n i in Some (fst r, sx_okerr (snd r))
+  end.
+
+Fixpoint apply_ops (s : incdoc) (ops : list op) (acc : list sx) : option (incdoc * list sx) :=
+  match ops with
+  | [] => Some (s, rev acc)
+  | o :: ops' => match apply_op s o with Some (s', r) => apply_ops s' ops' (r :: acc) | None => None end
+  end.
+
+(* the trailer a reader returns for a written cross-reference stream dictionary: decode_xref_stream removes
+   Length, W, Index; Reader::read removes Prev and, once the Prev loop has run, XRefStm *)
+Definition read_back_trailer (stream : bool) (t : dict) : dict :=
+  let t1 := if stream then dict_swap_remove (dict_swap_remove (dict_swap_remove t K_Length) K_W) K_Index else t in
+  dict_swap_remove (dict_swap_remove t1 K_Prev) K_XRefStm.
+
+Definition xmap_max (x : xmap) : N := fold_left (fun acc kv => N.max acc (fst kv)) x 0%N.
+
+(* the view after loading the plain save of [d] *)
+Definition reload_plain (xt : xref_type) (d : doc) : option (bytes * xdoc) :=
+  let r := save xt d in
+  match so_status r with
+  | SaveOk =>
+    let '(body, pos, x) := save_body d in
+    match xt with
+    | XTable =>
+      Some (so_bytes r,
+            {| xd_doc := {| d_version := d_version d; d_binary_mark := d_binary_mark d;
+                            d_trailer := read_back_trailer false (trailer_table d);
+                            d_objects := written (d_objects d);
+                            d_max_id := xmap_max (filter (fun kv => (fst kv <? d_max_id d + 1)%N) x) |};
+               xd_start := pos; xd_type := XTable |})
+    | XStream =>
+      let '(t, content, x1) := xstream_parts d x (pos mod u32_mod)%N in
+      Some (so_bytes r,
+            {| xd_doc := {| d_version := d_version d; d_binary_mark := d_binary_mark d;
+                            d_trailer := read_back_trailer true t;
+                            d_objects := insert (written (d_objects d)) ((d_max_id d + 1)%N, 0%N) (OStream t content);
+                            d_max_id := xmap_max (filter (fun kv => (fst kv <=? d_max_id d + 1)%N) x1) |};
+               xd_start := pos; xd_type := XStream |})
+    end
+  | _ => None
+  end.
+
+(* the view after loading the incremental save of [s] *)
+Definition reload_inc (s : incdoc) : xdoc :=
+  let nd := xd_doc (i_new s) in
+  let pd := xd_doc (i_prev s) in
+  let prev := i_bytes s in
+  let '(ob, pos, x) := write_objects (start_count prev + blen (inc_head s))%N (d_objects nd) [] in
+  match xd_type (i_prev s) with
+  | XTable =>
+    {| xd_doc := {| d_version := d_version pd; d_binary_mark := d_binary_mark pd;
+                    d_trailer := read_back_trailer false (trailer_table nd);
+                    d_objects := overlay (d_objects pd) (d_objects nd);
+                    d_max_id := N.max (d_max_id pd) (xmap_max (filter (fun kv => (fst kv <? d_max_id nd + 1)%N) x)) |};
+       xd_start := pos; xd_type := XTable |}
+  | XStream =>
+    let '(t, content, x1) := xstream_parts nd x (pos mod u32_mod)%N in
+    {| xd_doc := {| d_version := d_version pd; d_binary_mark := d_binary_mark pd;
+                    d_trailer := read_back_trailer true t;
+                    d_objects := insert (overlay (d_objects pd) (d_objects nd)) ((d_max_id nd + 1)%N, 0%N) (OStream t content);
+                    d_max_id := N.max (d_max_id pd) (xmap_max (filter (fun kv => (fst kv <=? d_max_id nd + 1)%N) x1)) |};
+       xd_start := pos; xd_type := XStream |}
+  end.
+
+Definition steps_of_sx (x : sx) : option (list (list op)) :=
+  match x with
+  | SL (_ :: sts) => omap (fun st => match st with SL (_ :: ops) => omap op_of_sx ops | _ => None end) sts
+  | _ => None
+  end.
+
+Fixpoint run_steps (bytes0 : bytes) (prev : xdoc) (steps : list (list op)) : list sx :=
+  match steps with
+  | [] => []
+  | ops :: steps' =>
+    let s := create_from bytes0 prev in
+    match apply_ops s ops [] with
+    | None => [sx_id "outside-model"]
+    | Some (s1, rs) =>
+      let out := inc_save s1 in
+      match io_status out with
+      | IncOk =>
+        let suffix := skipn (length bytes0) (io_bytes out) in
+        let rl := reload_inc s1 in
+        SL [sx_id "step"; SL (sx_id "ops" :: rs); objmap_to_sx (new_objects s1); sx_bool true; sx_bytes suffix]
+        :: SL [sx_id "reload"; dict_to_sx (sort_dict (d_trailer (xd_doc rl))); sx_N (d_max_id (xd_doc rl));
+               sx_N (xd_start rl); objmap_to_sx (d_objects (xd_doc rl))]
+        :: run_steps (io_bytes out) rl steps'
+      | _ => [SL [sx_id "saveerr"]]
+      end
+    end
+  end.
+
+Definition run_inc (dx stx jx stepsx : sx) : sx :=
+  match doc_of_sx dx, as_bytes jx, steps_of_sx stepsx with
+  | Some d, Some junk, Some steps =>
+    let xt := if is_id stx "stream" then XStream else XTable in
+    match reload_plain xt d with
+    | Some (b, prev) => SL (sx_id "inc" :: sx_bytes b :: run_steps (junk ++ b) prev steps)
+    | None => SL [sx_id "inc"; sx_id "basesaveerr"]
+    end
+  | _, _, _ => sx_id "badcase"
+  end.
+
+Definition run_incraw (bx lx stepsx : sx) : sx :=
+  match as_bytes bx, layout_of_sx lx, steps_of_sx stepsx with
+  | Some b, Some L, Some steps =>
+    match load_abs (load_fuel L) L with
+    | LOk d =>
+      let prev := {| xd_doc := {| d_version := []; d_binary_mark := []; d_trailer := ld_trailer d;
+                                  d_objects := ld_objects d; d_max_id := ld_max_id d |};
+                     xd_start := ld_start d;
+                     xd_type := if xr_stream (ld_xref d) then XStream else XTable |} in
+      SL (sx_id "incraw" :: run_steps b prev steps)
+    | LErr e => SL [sx_id "incraw"; SL [sx_id "loaderr"; lerr_to_sx e]]
+    | LOutOfFuel => sx_id "outoffuel"
+    end
+  | _, _, _ => sx_id "badcase"
+  end.
+
 Definition run (x : sx) : sx :=
   match x with
-  | SL [tag; _; _; lx; rx] => if is_id tag "load" then run_load lx rx else sx_id "badcase"
+  | SL [tag; a; b; c; d] =>
+    if is_id tag "load" then run_load c d
+    else if is_id tag "inc" then run_inc a b c d
+    else if is_id tag "incraw" then run_incraw b c d
+    else sx_id "badcase"
   | _ => sx_id "badcase"
   end.
 
